@@ -14,7 +14,7 @@ fn fmt_stub2(_a: core::fmt::Arguments<'_>) -> String {
 // @harness c10_cow_sequence
 // @props C10 C03 C18 C01 C17 C02 C04
 // @tier quick
-// @cost 100
+// @cost 34
 // @timeout 1200
 // @needs WC
 // @desc the whole body of do_write_cow (lock, lookups, allocator, data write, flushes and release shimmed and recorded) for a partial write over a compressed or backing-provided cluster: a new cluster is allocated and mapped under the slice lock, the merged data is written (with the COW source), THEN the refcounts are flushed, THEN the L2 slice holding the new mapping is written (whole slice, at its host offset) and marked clean, and only THEN the replaced compressed clusters are released -- exactly the clusters the old descriptor occupied, once; a backing-provided cluster releases nothing; if the cluster was already copied by someone else the request is simply re-issued as a plain write; if the data write fails the allocated cluster is freed and unregistered, the old entry is restored bit for bit and the error is returned
